@@ -493,6 +493,16 @@ func (x *Exec) mapValArr(st *State, mt types.Type, c Comp) *HArr {
 	x.decls.Const(base, "(Array Int "+srt+")")
 	h := &HArr{key: key, sort: srt, base: base}
 	st.heap[key] = h
+	if c.Role == "len" {
+		// slice-valued map entries: 0 <= len <= cap <= limit (instantiated per read of the len component)
+		capBase := strings.Replace(base, "$len", "$cap", 1)
+		x.decls.Const(capBase, "(Array Int "+srt+")")
+		x.decls.Pat("sel2:"+base, func(args []string) string {
+			l := sSel(sSel(base, args[0]), args[1])
+			cp := sSel(sSel(capBase, args[0]), args[1])
+			return sAnd(sLe("0", l), sLe(l, cp), sLe(cp, capLimit))
+		})
+	}
 	// value well-typedness
 	if x.rangeFact("t", c, st.epochAlloc) != "true" && c.Role == "" {
 		al := st.epochAlloc
